@@ -68,7 +68,7 @@ impl ProtocolVariables {
         ensures
             final(out)@ == old(out)@ + values_reply(self.bits, config.max_conns.get()),
             r == values_reply(self.bits, config.max_conns.get()).len(),
-            final(out)@.len() <= usize::MAX,   // Vec length is a usize
+            final(out)@.len() <= isize::MAX,   // a Vec never holds more than isize::MAX bytes
     { unimplemented!() }
 }
 // R9: `let mut nvit = NVIter::new(payload); vars.extend((&mut nvit).filter_map(parse_nv_var));
